@@ -72,6 +72,8 @@ def run(chk):
             raise vlib.Inconclusive("no case generated for " + v)
         for c in res.printed:
             c = {k: c[k] for k in ("ver", "honest", "auth", "verifyChain", "policy", "cred", "dev", "accept", "required")}
+            if c["dev"] in ("forgedProof", "mixedChain") and c["cred"] != "chainAkeyB":
+                continue   # these deviations present the victim's public chain whatever the rogue's own credential: one row each
             cases.append(c)
             if c["accept"] and not c["required"] and vlib.match_known(chk.known, facts(c)) is None:
                 raise vlib.Inconclusive("model accepts without the required credential: %s" % c)
